@@ -23,7 +23,7 @@ struct token tok;
 static enum storageclass g_sc; static enum funcspec g_fs;
 static bool g_hasprior, g_hasbody, g_hasinit;
 static struct decl g_prior, g_new, *g_d;
-static struct type t_fn, t_obj, t_ret;
+static struct type t_fn, t_obj, t_ret, t_par; static struct decl g_param;
 static char nm[2] = "f";
 static int g_linkage;
 static int n_emit, g_emit_global, n_stmt, n_define, g_def_hasinit, n_hlt;
@@ -87,7 +87,7 @@ bool typesame(struct type *a, struct type *b) { return a == b; }
 void
 harness(void)
 {
-	IN(int, in_sc); IN(int, in_fs); IN(bool, in_hasprior); IN(bool, in_body); IN(bool, in_init);
+	IN(int, in_sc); IN(int, in_fs); IN(bool, in_hasprior); IN(bool, in_body); IN(bool, in_init); IN(bool, in_parinc);
 	IN(int, in_linkage); IN(bool, in_prior_inline); IN(bool, in_prior_defined); IN(bool, in_prior_tentative);
 	struct decl **end0;
 	bool r;
@@ -99,6 +99,9 @@ harness(void)
 	__CPROVER_assume(in_sc != SCSTATIC || in_linkage == LINKINTERN || in_hasprior);
 	g_sc = in_sc; g_fs = in_fs; g_hasprior = in_hasprior; g_hasbody = in_body; g_hasinit = in_init; g_linkage = in_linkage;
 	t_ret.kind = TYPEINT; t_fn.kind = TYPEFUNC; t_fn.base = &t_ret;
+	/* one parameter, of struct type that is complete or not yet */
+	t_par.kind = TYPESTRUCT; t_par.incomplete = in_parinc; g_param.kind = DECLOBJECT; g_param.type = &t_par; g_param.name = nm; g_param.next = 0;
+	t_fn.u.func.params = &g_param; t_fn.u.func.nparam = 1; t_fn.u.func.isvararg = false;
 	t_obj.kind = TYPEINT; t_obj.prop = PROPSCALAR|PROPARITH|PROPREAL|PROPINT; t_obj.size = t_obj.align = 4;
 	g_prior.name = nm; g_prior.kind = V_FUNC ? DECLFUNC : DECLOBJECT; g_prior.type = V_FUNC ? &t_fn : &t_obj; g_prior.linkage = in_linkage;
 	g_prior.defined = in_prior_defined; g_prior.tentative = in_prior_tentative; g_prior.next = 0;
@@ -121,6 +124,7 @@ harness(void)
 		__CPROVER_assert(g_d->u.func.isnoreturn == ((in_fs & FUNCNORETURN) != 0), "_Noreturn recorded");
 		if (in_body) {
 			__CPROVER_assert(!(in_hasprior && in_prior_defined), "a second definition of a function is diagnosed (normal return => first definition)");
+			__CPROVER_assert(!in_parinc, "C11 6.7.6.3p4 / 6.9.1p7: in a function DEFINITION a parameter of incomplete type is diagnosed (a mere declaration may have one)");
 			__CPROVER_assert(n_stmt == 1 && g_d->defined, "the body is compiled once and the function is marked defined");
 			__CPROVER_assert(n_emit == (want_inline ? 0 : 1), "an inline definition is not emitted; every other definition is emitted exactly once");
 			__CPROVER_assert(want_inline || g_emit_global == (g_d->linkage == LINKEXTERN), "exported iff external linkage");
